@@ -442,7 +442,7 @@ func TestPKCS7RejectExhaustive(t *testing.T) {
 	s := vf.Begin(t, P, "pkcs7-reject-exhaustive")
 	s.SetExhaustive()
 	alphabet := []byte{0, 1, 2, 3, 4, 5, 6, 255}
-	maxLen := vf.N(5, 7)
+	maxLen := vf.Size(5, 7)
 	s.Note("all buffers of length 0..%d over the alphabet %v", maxLen, alphabet)
 	vf.Enum(s, func(yield func(unpadCase)) {
 		var rec func(prefix []byte)
